@@ -54,7 +54,9 @@ CHECKS["C02"] = dict(level="model_checking", design="5 C02", technique=_PANEL_TE
 CHECKS["C03"] = dict(level="model_checking", design="5 C03", technique=_PANEL_TECH, note=_PANEL_NOTE,
     text="kG0 as the Hessian of the pre-stress work for all models and sub-intervals; TLC checks symmetry, that only w amplitudes "
          "are touched, linearity in (Nxx,Nyy,Nxy) and tiling, and decides every entry of Panel.calc_kG0 for mixed-sign and shear "
-         "load triples. The state-based variant (resultants recovered from a Ritz state) is decided through PanelNL (C08 module).")
+         "load triples. The state-based variant (calc_kG0(c=...)) is decided against PanelNL!KGState: resultants N = A eps + B kappa of "
+         "the state as polynomials, exact integration; TLC invariant: a uniform-strain state reproduces the constant-load matrix; "
+         "per-point laminate tables equal to the uniform laminate are replayed and must change nothing.")
 CHECKS["C04"] = dict(level="model_checking", design="5 C04", technique=_PANEL_TECH, note=_PANEL_NOTE,
     text="kM as the kinetic-energy Hessian with z measured from the reference surface the laminate uses (coupling -mu*h*d, rotary "
          "mu*h*(d^2+h^2/12)); TLC checks symmetry, exact positive definiteness on active amplitudes, total mass of a rigid "
@@ -114,6 +116,18 @@ CHECKS["C15"] = dict(level="model_checking", design="5 C15", note=_PANEL_NOTE + 
          "clauses (non-increasing under refinement, never below the double-sine closed form, converging to it) are decided by TLC "
          "on observed lb/freq values using rational brackets of the closed forms for aspect ratios 1/5..5, cross-ply and single-ply "
          "laminates and uniaxial/biaxial load ratios.")
+
+CHECKS["C08"] = dict(level="model_checking", design="5 C08", note=_PANEL_NOTE + " Series orders up to 3 (bivariate polynomial "
+    "arithmetic in TLC); Gauss orders chosen from the exactness bound (and above it).",
+    technique="TLA+ module PanelNL: fields of a rational state as bivariate polynomials, quartic strain energy, Fint = first "
+              "variation, KT = second variation, all integrals exact; TLC invariants: Fint(0)=0, KT(0)=K0, KT symmetric (each entry "
+              "from its own formula), KT = Jacobian of Fint and Fint = gradient of U by the 4-point stencil that is exact for "
+              "cubic/quartic maps; Panel.calc_fint / calc_kT at lattice and random rational states judged by TLC trace validation",
+    text="Consistency of the tangent with the internal force at deformed states is decided exactly on the specification (stencil "
+         "identities hold as equalities of rationals) and transferred to the code by deciding every entry of calc_fint and calc_kT "
+         "(uniform and per-point laminate tables, Gauss orders at and above the exactness bound, flat and cylindrical models, "
+         "B-coupled laminate, prime-valued edge flags) against the exact gradient/Hessian within 2^-34 of the term-magnitude bound; "
+         "caller arrays are recorded unmodified. Assembly-level addition of connection forces: see C13.")
 
 NOT_YET = {}
 
